@@ -143,6 +143,34 @@ def len_value(unit, fn, ln, bufdecl_id=None):
     return ("sym", A.src(e))
 
 
+def _origin_names(unit, e, depth):
+    """names of the variables, parameters and members an expression is computed from, helpers of the unit looked into;
+    "?" stands for anything not followed (a call out of the unit, too deep)"""
+    out = set()
+    for y in A.walk(e):
+        k = y.get("kind")
+        if k == "DeclRefExpr" and (y.get("referencedDecl") or {}).get("kind") in ("VarDecl", "ParmVarDecl", "FieldDecl"):
+            d = unit.by_id.get(y["referencedDecl"]["id"])
+            out.add(y["referencedDecl"].get("name"))
+            if d is not None and d.get("kind") == "ParmVarDecl" and depth == 0:
+                out.add("?")                      # a forwarded value: its bound is the caller's business
+            elif d is not None and d.get("kind") == "VarDecl" and A.kids(d) and depth < 3:
+                out |= _origin_names(unit, A.kids(d)[-1], depth + 1)
+        elif k == "MemberExpr":
+            out.add(y.get("name"))
+        elif k in ("CallExpr", "CXXMemberCallExpr"):
+            nm = A.callee_name(y)
+            if nm is None and k == "CXXMemberCallExpr":
+                nm = A.strip_casts(A.kids(y)[0]).get("name")
+            fns = [f for q, fl in unit.functions.items() if q.split("::")[-1] == (nm or "") for f in fl if unit.body(f) is not None]
+            if len(fns) != 1 or depth >= 3:
+                out.add("?")
+            else:
+                sub = _origin_names(unit, unit.body(fns[0]), depth + 1)
+                out |= (sub - {"?"}) | ({"?"} if "?" in sub and depth + 1 >= 3 else set())
+    return out
+
+
 def check_site(unit, fn, call, name):
     bi, li = BUILDERS[name]
     args = A.kids(call)[1:]
@@ -176,6 +204,16 @@ def check_site(unit, fn, call, name):
                             if capname in txt and ("*" in txt or "+" in txt):
                                 detail["len_is"] = "%s = %s" % (lv[1], txt)
                                 return False, detail
+        # a local computed from something that never mentions the allocation size (the free space of a ring, a
+        # length field of the message, ...) is no bound for this buffer
+        le = A.strip_casts(ln)
+        if le.get("kind") == "DeclRefExpr":
+            ld = unit.by_id.get((le.get("referencedDecl") or {}).get("id"))
+            if ld is not None and ld.get("kind") == "VarDecl" and A.kids(ld):
+                names = _origin_names(unit, A.kids(ld)[-1], 0)
+                if "?" not in names and capname not in names and cap not in names:
+                    detail["len_is"] = "%s = %s (computed from %s)" % (ld.get("name"), A.src(A.kids(ld)[-1]), sorted(names)[:6])
+                    return False, detail
         return None, detail
     if shape == "forwarded":
         if isinstance(lv, tuple) and lv[0] == "param":
